@@ -27,7 +27,7 @@ VALS = {
     "bool": [True, False],
     "int": [0, 1, -5, 9007199254740993, 7],
     "float": [1.5, -2.25, 0.0, "inf", "-inf", "-0.0", 1e300],
-    "str": ["a", "ä", "x y", "0", "None", "nan", "q\"r", "line\nbreak", " ", "  ", "\u00a0", "\u3000", "\t"],
+    "str": ["a", "ä", "x y", "0", "None", "nan", "q\"r", "line\nbreak", " ", "  ", "\u00a0", "\u3000", "\t", "\u0141\u00f3d\u017a"],
     # text that merely LOOKS like other types: it is text, and must come back as the same text in a string column
     "strlike": ["2019-09-16", "2020-01-01", "2021-12-31 10:00:00", "2020-01-01T00:00:00", "1", "2.5", "true", "null", "1e3", "00501"],
     "date": [0, 1, 18000, 19000, -719162],
@@ -106,6 +106,24 @@ def impl(case):
             res["mid_fields"] = [len(x) for x in mid]
             res["mid_null"] = {c["name"]: [x[c["name"]] is None for x in mid] for c in spec["cols"]}
             back = di.DataFrame.from_json(text, dtypes=dtypes)
+            # the same text through a FILE in an encoding that cannot carry every character (write_json / read_json with
+            # encoding="latin-1"): the writer refuses (UnicodeEncodeError) or the text that comes back is the text written —
+            # never a silently altered one
+            import os, shutil, tempfile
+            d = tempfile.mkdtemp(prefix="verif-c13-")
+            try:
+                path = os.path.join(d, "t.json")
+                try:
+                    df.write_json(path, encoding="latin-1")
+                    b2 = di.DataFrame.read_json(path, encoding="latin-1", dtypes=dtypes)
+                    res["file_latin1"] = {k: [None if m_ else vecgen.canon_elem(x) for x, m_ in zip(b2[k], b2[k].is_na())] for k in df.colnames if df[k].is_string() and k in b2}
+                    res["file_latin1_src"] = {k: [None if m_ else vecgen.canon_elem(x) for x, m_ in zip(df[k], df[k].is_na())] for k in df.colnames if df[k].is_string()}
+                except UnicodeError:
+                    res["file_latin1"] = "refused"
+                except Exception as e:
+                    res["file_latin1"] = f"raises {type(e).__name__}"
+            finally:
+                shutil.rmtree(d, ignore_errors=True)
         elif route == "pandas":
             mid = df.to_pandas()
             res["mid_records"] = int(mid.shape[0])
@@ -157,6 +175,13 @@ def judge(ctx, case, obs, mouts):
         return
     if obs["mutated"]:
         ctx.violation("oracle", f"{route}:mutates", "conversion changed the data frame", case, obs)
+    fl = obs.get("file_latin1")
+    if isinstance(fl, dict):
+        ctx.count("json:file-latin-1:written")
+        if fl != obs.get("file_latin1_src"):
+            ctx.violation("oracle", "json:file-latin1:values", f"write_json / read_json with encoding='latin-1' returned {str(fl)[:200]} for {str(obs.get('file_latin1_src'))[:200]} (neither refused nor the same text)", case, obs)
+    elif fl == "refused":
+        ctx.count("json:file-latin-1:refused")
     names = [c["name"] for c in spec["cols"]]
     if obs["mid_records"] != n or any(f != len(names) for f in obs["mid_fields"]):
         ctx.violation("oracle", f"{route}:shape", "intermediate object does not have one record per row and one field per column", case, obs)
